@@ -37,7 +37,8 @@ CONSTANTS
     MaxAny,      \* longest at-least-one list of contexts
     KindSet,     \* declaration kinds explored: "req", "any", "via", "viaimpl"
     AllowSeed,   \* BOOLEAN: also explore evaluations over a pre-seeded broker
-    MaxLvl       \* how often the registry point may be re-declared down the class hierarchy
+    MaxLvl,      \* how often the registry point may be re-declared down the class hierarchy
+    MidEval      \* BOOLEAN: also explore evaluations between registrations
 
 VARIABLES
     phase,       \* "reg" | "eval" | "done"
@@ -101,7 +102,8 @@ RegisterImpl(d) ==
     /\ phase = "reg" /\ Len(impls) < MaxImpl
     /\ LET s == RegState(d, impls, handlers, ignore, pointDeps) IN
          /\ impls' = s.impls /\ pointDeps' = s.pointDeps /\ ignore' = s.ignore /\ handlers' = s.handlers
-    /\ UNCHANGED <<phase, ev, levels>>
+    /\ ev' = NoEval                    \* an earlier evaluation says nothing about the new history
+    /\ UNCHANGED <<phase, levels>>
 
 -----------------------------------------------------------------------------
 (* Evaluation, the way the engine does it (DrEngine: Ignored branch,        *)
@@ -152,7 +154,7 @@ HOuts(n) == {h \in [1..n -> Outs] : \A i \in 1..n : impls[i].k # "via" => h[i] =
 SeedOuts(n) == {o \in [1..n -> Outs] : \A i \in 1..n : impls[i].k # "viaimpl" => o[i] = "val"}
 
 StartEval ==
-    /\ phase = "reg" /\ impls # <<>>
+    /\ phase = "reg" /\ impls # <<>> /\ ev = NoEval
     /\ phase' = "eval"
     /\ UNCHANGED <<impls, handlers, ignore, levels, pointDeps, ev>>
 
@@ -166,8 +168,18 @@ Evaluate ==
                 ev' = EvalWith(0, oc, [i \in 1..n |-> "val"], S, arch)
     /\ UNCHANGED <<impls, handlers, ignore, levels, pointDeps>>
 
+(* An evaluation BETWEEN registrations (same process: "register A; evaluate; register B; evaluate    *)
+(* again"): registration goes on afterwards, and every evaluation is judged against the history so    *)
+(* far.  The mechanism keeps no state between evaluations; an implementation that does (e.g. a        *)
+(* delegate remembering its ignore set) is caught by trace validation.                                *)
+MidEvaluate ==
+    /\ MidEval /\ phase = "reg" /\ impls # <<>> /\ ev = NoEval
+    /\ LET n == Len(impls) IN
+       \E a \in Ctx, oc \in [1..n -> Outs], hoc \in HOuts(n) : ev' = EvalWith(a, oc, hoc, {}, FALSE)
+    /\ UNCHANGED <<phase, impls, handlers, ignore, levels, pointDeps>>
+
 Register == \E d \in Decls(Len(impls)) : RegisterImpl(d)
-Next == Register \/ StartEval \/ Evaluate
+Next == Register \/ MidEvaluate \/ StartEval \/ Evaluate
 Spec == Init /\ [][Next]_vars
 
 -----------------------------------------------------------------------------
@@ -204,7 +216,7 @@ AvailIn(n, I, S, P, oc) ==
          IN IF n \in S \/ (n \notin P /\ I[n].k = "viaimpl" /\ I[n].j \in A /\ oc[n] = "val") THEN A \cup {n} ELSE A
 LatestHolding(H) == IF H = {} THEN 0 ELSE Max(H)
 
-Done    == phase = "done"
+Done    == ev.outc # <<>>              \* an evaluation of the current history (final or between registrations)
 Ctxd    == Done /\ ev.active # 0
 
 ResolvesToLatest ==
